@@ -6,7 +6,7 @@ import re
 
 from ..eqmodel import attrs_read, attrs_read_deep, classify, dnf, eq_disjuncts, returned_bool
 from ..pymodel import package
-from ..valueflow import Flow, as_map, match, V, show, simp, subst, walk, norm_guard
+from ..valueflow import Flow, as_map, match, V, show, simp, subst, walk, norm_guard, record_fields, projection
 from .c09 import hash_contract
 
 EXPLANATION = (
@@ -195,9 +195,11 @@ def _mode_leaf(v, m):
 
 
 def _r3(ctx, pkg):
-    fn = pkg.method("Network", "find_duplicate_reaction")
+    pkg.method("Network", "find_duplicate_reaction")
     ctx.saw(NF, "Network.find_duplicate_reaction")
-    # small pure helpers of the class (e.g. the construction of the check list) are read through
+    # the scan with the private helpers it was split into put back (statement helpers: the loop over the check list); small pure
+    # helpers of the class (e.g. the construction of the check list) are read through as values
+    fn = pkg.expanded("Network", "find_duplicate_reaction")
     fl = Flow(fn, NF, resolver=lambda name: pkg.resolve("Network", name)[1])
     W = (NF, fn.lineno)
     RL = ("attr", SELF, "reaction_list")
@@ -258,23 +260,94 @@ def _r3(ctx, pkg):
     def about_table(g):
         return any(x == ACC_SEEN or x in entry for x in walk(g))
 
+    def entry_of(x):
+        """the key whose table entry the value x denotes (`seen[k]`, `seen.get(k)`, a local bound to either), else None"""
+        x = simp(x)
+        if x in entry:
+            return entry[x]
+        if x[0] == "sub" and x[1] == ACC_SEEN:
+            return x[2]
+        if x[0] == "meth" and x[1] == ACC_SEEN and x[2] == "get" and not x[4] and (len(x[3]) == 1 or (len(x[3]) == 2 and x[3][1] == ("const", None))):
+            return x[3][0]
+        return None
+
+    def class_of(name):
+        ci = pkg.classes.get(name)
+        if ci is not None:
+            return ci.node
+        for st in pkg.modules[NF].body:
+            if isinstance(st, ast.Assign) and len(st.targets) == 1 and isinstance(st.targets[0], ast.Name) and st.targets[0].id == name and isinstance(st.value, ast.Call):
+                return st.value
+        return None
+
+    ONE = ("const", 1)
     stores = [f for f in fl.facts if f.kind == "store" and f.target == SEEN]
     reports = [f for f in fl.facts if f.kind == "append" and f.target in (DUPES, DUPIDX)]
-    # growth of an entry: seen[k].append(v)  /  members.append(v) with members the fetched entry
-    grows = []
+    # What happens to the ENTRY of a key after it was created, by projection (valueflow.record_fields paths): ("len",) grows by
+    # one with every append; a field / slot is incremented (`e.count += 1`, `e[1] += 1`) or set.  The table may hold the list of
+    # positions, or any record of (first position, number of occurrences) -- only those two projections are ever read.
+    mods = []            # (key, path, "inc" | "set", value, fact)
+    opaque = False
+    fresh = []           # stores that create an entry (their value does not build on the old one)
     for f in fl.facts:
-        if f.kind == "call" and f.target == "append" and f.value[1][0] == "sub" and f.value[1][1] == ACC_SEEN and len(f.value[3]) == 1:
-            grows.append((simp(f.value[1][2]), simp(f.value[3][0]), f))
+        if f.kind == "call" and f.value is not None and f.value[0] == "meth" and entry_of(f.value[1]) is not None:
+            if f.target == "append" and len(f.value[3]) == 1:
+                mods.append((simp(entry_of(f.value[1])), ("len",), "inc", simp(f.value[3][0]), f))
+            elif f.target in ("extend", "insert", "pop", "remove", "clear", "sort", "reverse", "update", "setdefault", "add"):
+                opaque = True
         elif f.kind == "append" and ("acc", f.target) in entry:
-            grows.append((entry[("acc", f.target)], simp(f.value), f))
+            mods.append((simp(entry[("acc", f.target)]), ("len",), "inc", simp(f.value), f))
+        elif f.kind in ("mutate", "remove") and ("acc", f.target) in entry:
+            opaque = True
+        elif f.kind == "attrstore" and f.extra.get("obj") is not None and entry_of(f.extra["obj"]) is not None:
+            inc = f.op == "Add" and simp(f.value) == ONE
+            mods.append((simp(entry_of(f.extra["obj"])), ("attr", f.target), "inc" if inc else "set", simp(f.value), f))
+        elif f.kind in ("store", "augstore") and f.target != SEEN:
+            b = f.extra.get("base")
+            k_ = entry_of(b) if b is not None else entry.get(("acc", f.target))
+            if k_ is not None:
+                ix = simp(f.index)
+                if ix[0] != "const":
+                    opaque = True
+                else:
+                    inc = f.kind == "augstore" and f.op == "Add" and simp(f.value) == ONE
+                    mods.append((simp(k_), ("sub", ix[1]), "inc" if inc else "set", simp(f.value), f))
+    for st in stores:
+        v_ = simp(st.value)
+        k_ = simp(st.index)
+        old = [x for x in walk(v_) if isinstance(x, tuple) and x and (x == ACC_SEEN or x in entry)]
+        if not old:
+            fresh.append(st)
+            continue
+        # an immutable record replaced by its successor: `seen[k] = e._replace(count=e.count + 1)`, `seen[k] = (e[0], e[1] + 1)`,
+        # `seen[k] = seen[k] + [idx]` -- projection by projection: unchanged, incremented, or set
+        E = ("sub", ACC_SEEN, k_)
+        v2 = simp(subst(v_, {e: E for e in entry if entry[e] == k_} | {("meth", ACC_SEEN, "get", (k_,), ()): E, ("meth", ACC_SEEN, "get", (k_, ("const", None)), ()): E}))
+        new = None
+        if v2[0] == "meth" and v2[1] == E and v2[2] == "_replace" and not v2[3]:
+            new = {("attr", k): x for k, x in v2[4]}
+        elif v2[0] == "binop" and v2[1] == "Add" and v2[2] == E and v2[3][0] in ("list", "tuple") and len(v2[3][1]) == 1:
+            mods.append((k_, ("len",), "inc", v2[3][1][0], st))
+            continue
+        else:
+            new = record_fields(v2, class_of)
+            if new is not None:
+                new.pop(("len",), None)
+        if new is None:
+            opaque = True
+            continue
+        for path, x in new.items():
+            cur = ("sub", E, ("const", path[1])) if path[0] == "sub" else ("attr", E, path[1])
+            if x == cur:
+                continue
+            inc = x in (("binop", "Add", cur, ONE), ("binop", "Add", ONE, cur))
+            mods.append((k_, path, "inc" if inc else "set", x, st))
     # whatever the shape of the table: an entry written for a key that is already there, with a value that does not
     # build on the old entry, forgets the first occurrence -- and `first` / the report are derived from the table
-    opaque = False
-    for st in stores:
+    for st in fresh:
         k_ = simp(st.index)
         g_ = cguards(st)
-        reads_old = any(x == ACC_SEEN or x in entry for x in walk(simp(st.value)))
-        if (isseen(k_), False) in g_ or reads_old:
+        if (isseen(k_), False) in g_:
             continue
         if any(about_table(g) and g != isseen(k_) for g, _ in g_):
             opaque = True        # guarded by a test of the table this rule does not read: not evidence of an overwrite
@@ -283,13 +356,14 @@ def _r3(ctx, pkg):
                 "(classes of three or more members report a wrong first member)", expected="if chk not in seen: seen[chk] = [idx]",
                 found="; ".join(("" if p else "not ") + show(g)[:60] for g, p in g_) or "unguarded store")
     nrep = 2 if derived is None else 1
-    if len(stores) != 1 or len(reports) != nrep or len(grows) != 1 or opaque:
-        ctx.unrec("R3", "find_duplicate_reaction", W, f"first-seen table not recognised (stores {len(stores)}, report appends {len(reports)}, growth {len(grows)})")
+    if len(fresh) != 1 or len(reports) != nrep or not mods or opaque:
+        ctx.unrec("R3", "find_duplicate_reaction", W, f"first-seen table not recognised (stores {len(fresh)}, report appends {len(reports)}, growth {len(mods)})")
         return
-    st = stores[0]
+    st = fresh[0]
     key = simp(st.index)
     lp = st.loops[0] if len(st.loops) == 1 else None
     SEENK = isseen(key)
+    ENTRY = ("sub", ACC_SEEN, key)
     # loop
     it = simp(lp.iter) if lp else None
     chk = it[2][0] if it and it[0] == "call" and it[1] == ("global", "enumerate") and len(it[2]) == 1 else ("const", None)
@@ -297,8 +371,72 @@ def _r3(ctx, pkg):
     ctx.check(ok_loop, "R3", "loop", (NF, lp.line if lp else fn.lineno), "every entry of the check list is visited once, in order, with its index", found=show(it)[:100] if it else "")
     ctx.check(cguards(st) == [(SEENK, False)], "R3", "store only when unseen", (NF, st.line),
               "a key enters `seen` exactly when it was not there", expected="if chk not in seen: seen[chk] = [idx]", found="; ".join(show(g)[:60] for g, _ in cguards(st)))
-    v = simp(st.value)
-    ctx.check(v[0] == "list" and len(v[1]) == 1 and v[1][0][0] == "idx", "R3", "stored list non-empty", (NF, st.line), "the stored value is the one-element list [idx]", found=show(v)[:60])
+    idx = ("idx", chk, lp.id) if lp else None
+    # the two projections `first` reads off an entry: FIRST (the position the key was entered at) and COUNT (compared with 1)
+    rets = [f for f in fl.facts if f.kind == "return"]
+    P_first = P_count = None
+    c = None
+    shape = False
+    thr_ok = False
+    if len(rets) == 1 and simp(rets[0].value)[0] == "tuple" and len(simp(rets[0].value)[1]) == 3:
+        a, b, c = simp(rets[0].value)[1]
+        if c[0] == "comp" and len(c[3]) == 1 and (a == ("acc", DUPES) or derived is not None) and b == ("acc", DUPIDX):
+            tg, itr, ifs = c[3][0]
+            idxes = None
+            body_, ifs_ = c[2], tuple(ifs)
+            if itr == ("meth", ACC_SEEN, "items", (), ()) and tg[0] == "tuple" and len(tg[1]) == 2:
+                idxes = tg[1][1]
+            elif itr == ("meth", ACC_SEEN, "values", (), ()):
+                idxes = tg
+            elif itr == ACC_SEEN and tg[0] == "bv":
+                # iterating the keys and looking each entry up
+                idxes = ("sub", ACC_SEEN, tg)
+            if idxes is not None and idxes[0] == "tuple" and all(x[0] == "bv" for x in idxes[1]):
+                # the entry destructured in the loop target: `for first, count in seen.values()`
+                e_ = ("bv", "_entry", 0)
+                m_ = {x: ("sub", e_, ("const", i_)) for i_, x in enumerate(idxes[1])}
+                body_, ifs_, idxes = simp(subst(body_, m_)), tuple(simp(subst(x, m_)) for x in ifs_), e_
+            if idxes is not None and body_[0] == "sub" and body_[1] == RL and len(ifs_) == 1:
+                P_first = projection(body_[2], idxes)
+                t = norm_guard((ifs_[0], True))
+                b_ = match(("cmp", (V("op"),), (V("y"), ("const", V("n")))), t[0])
+                if b_ and isinstance(b_["n"], int):
+                    P_count = projection(b_["y"], idxes)
+                    op_, n_ = b_["op"], b_["n"]
+                    # count > 1  in any of its spellings
+                    thr_ok = (t[1] and ((op_ == "Gt" and n_ == 1) or (op_ == "GtE" and n_ == 2))) or (not t[1] and ((op_ == "LtE" and n_ == 1) or (op_ == "Lt" and n_ == 2)))
+                shape = bool(P_first) and bool(P_count)
+    WF = (NF, rets[0].line if rets else fn.lineno)
+    EXPF = "[reactions[idxes[0]] for _, idxes in seen.items() if len(idxes) > 1]"
+    if not shape:
+        if c is not None and c[0] == "comp" and any(x == ACC_SEEN for x in walk(c)) and any(x == RL for x in walk(c)):
+            # a selection from the table that is not `reactions[<first position of the entry>] if <size of the entry> > 1`
+            ctx.bad("R3", "first", WF, "`first` = reactions[idxes[0]] for every key seen more than once, in insertion order", expected=EXPF, found=show(c)[:140])
+        else:
+            ctx.unrec("R3", "first", WF, f"the list of first occurrences is not a selection from the first-seen table: {show(c)[:120] if c else 'no 3-tuple returned'}")
+        return
+    fields = record_fields(st.value, class_of)
+    # a namedtuple row that normalisation already wrote as the tuple of its values (normalize.namedtuple_rows) keeps its field names
+    nt = getattr(getattr(st.node, "value", None), "_nt_fields", None)
+    if fields is not None and nt:
+        for i_, f_ in enumerate(nt):
+            if ("sub", i_) in fields:
+                fields.setdefault(("attr", f_), fields[("sub", i_)])
+    if fields is None:
+        ctx.unrec("R3", "stored list non-empty", (NF, st.line), f"the entry created for a new key is not a display / record constructor this rule reads: {show(simp(st.value))[:80]}")
+        return
+    ctx.check(fields.get(P_first) == idx and fields.get(P_count) == ONE, "R3", "stored list non-empty", (NF, st.line),
+              "a new entry records the current position as the first one and counts one occurrence ([idx], or a record (idx, 1))",
+              expected="seen[chk] = [idx]", found=f"{show(simp(st.value))[:60]}: first position {show(fields[P_first])[:30] if P_first in fields else '?'}, "
+                                                  f"count {show(fields[P_count])[:20] if P_count in fields else '?'}")
+    touched_first = [m for m in mods if m[1] == P_first]
+    ctx.check(not touched_first, "R3", "first position kept", (NF, touched_first[0][4].line if touched_first else st.line),
+              "the recorded first position of a key is never changed afterwards" if not touched_first else
+              "the recorded first position is overwritten at a later occurrence: `first` reports a later member of the class", found=show(touched_first[0][3])[:60] if touched_first else "")
+    cnt = [m for m in mods if m[1] == P_count]
+    if not cnt:
+        ctx.unrec("R3", "seen arm appends index", (NF, st.line), f"nothing this rule reads makes the projection {P_count} of an entry grow")
+        return
     for f in reports:
         g = cguards(f)
         base_ok = g and g[0] == (SEENK, True)
@@ -306,12 +444,12 @@ def _r3(ctx, pkg):
         taut = True
         why = ""
         for x, p in extra:
-            # len(seen[chk]) >= 1  /  > 0 : true for every stored list (created non-empty, only grows)
-            b = match(("cmp", (V("op"),), (("call", ("global", "len"), (("sub", ACC_SEEN, key),), ()), ("const", V("n")))), x)
-            if b and p and ((b["op"] == "GtE" and b["n"] <= 1) or (b["op"] == "Gt" and b["n"] <= 0)):
+            # len(seen[chk]) >= 1  /  > 0  (count >= 1 ...): true for every entry (created with one occurrence, only grows)
+            b = match(("cmp", (V("op"),), (V("y"), ("const", V("n")))), x)
+            if b and p and isinstance(b["n"], int) and projection(b["y"], ENTRY) == P_count and ((b["op"] == "GtE" and b["n"] <= 1) or (b["op"] == "Gt" and b["n"] <= 0)):
                 continue
-            if p and x == ("sub", ACC_SEEN, key):
-                continue        # the same test in its canonical spelling: the stored list is non-empty (truthy)
+            if p and x == ENTRY:
+                continue        # the same test in its canonical spelling: the stored entry is non-empty (truthy)
             if x == SEENK and p:
                 continue        # the membership test repeated
             taut = False
@@ -322,7 +460,6 @@ def _r3(ctx, pkg):
                   f"the report is additionally guarded by `{why}`, which is not always true in the seen arm: the second member of a repeated class is not reported",
                   expected="report in the `else` of `chk not in seen` (any extra guard a tautology such as len(seen[chk]) >= 1)", found="; ".join(("" if p else "not ") + show(x)[:50] for x, p in g))
     i = [f for f in reports if f.target == DUPIDX][0]
-    idx = ("idx", chk, lp.id) if lp else None
     if derived is None:
         d = [f for f in reports if f.target == DUPES][0]
         ctx.check(simp(i.value) == idx and simp(d.value) == ("sub", RL, idx), "R3", "report values", (NF, d.line),
@@ -335,28 +472,14 @@ def _r3(ctx, pkg):
         else:
             ctx.check(simp(i.value) == idx and m[1] == ("sub", RL, m[0]) and not m[3], "R3", "report values", (NF, i.line),
                       "the reported pair is (reactions[idx], idx) of the current entry", found=f"{show(derived)[:60]} / {show(simp(i.value))[:40]}")
-    gk, gv, g = grows[0]
+    # the count grows by exactly one at every later occurrence: one increment, in the seen arm, unconditionally
+    gk, _, gkind, gv, g = cnt[0]
     gg = cguards(g)
-    ctx.check(gg == [(SEENK, True)] and gk == key and gv == idx, "R3", "seen arm appends index", (NF, g.line), "every later occurrence appends its index to the key's list, unconditionally",
-              found="; ".join(show(x)[:50] for x, _ in gg))
+    ok_g = len(cnt) == 1 and gkind == "inc" and gg == [(SEENK, True)] and gk == key and (P_count != ("len",) or gv == idx)
+    ctx.check(ok_g, "R3", "seen arm appends index", (NF, g.line), "every later occurrence appends its index to the key's list (adds one to the key's count), unconditionally",
+              found="; ".join(f"line {m[4].line}: {m[2]} {show(m[3])[:30]} if " + " and ".join(("" if p_ else "not ") + show(x)[:40] for x, p_ in cguards(m[4])) for m in cnt))
     # first
-    rets = [f for f in fl.facts if f.kind == "return"]
-    okf = False
-    found = ""
-    if len(rets) == 1 and simp(rets[0].value)[0] == "tuple" and len(simp(rets[0].value)[1]) == 3:
-        a, b, c = simp(rets[0].value)[1]
-        found = show(c)[:140]
-        if c[0] == "comp" and len(c[3]) == 1 and (a == ("acc", DUPES) or derived is not None) and b == ("acc", DUPIDX):
-            tg, itr, ifs = c[3][0]
-            idxes = None
-            if itr == ("meth", ACC_SEEN, "items", (), ()) and tg[0] == "tuple" and len(tg[1]) == 2:
-                idxes = tg[1][1]
-            elif itr == ("meth", ACC_SEEN, "values", (), ()) and tg[0] == "bv":
-                idxes = tg
-            if idxes is not None:
-                okf = c[2] == ("sub", RL, ("sub", idxes, ("const", 0))) and tuple(ifs) == (("cmp", ("Gt",), (("call", ("global", "len"), (idxes,), ()), ("const", 1))),)
-    ctx.check(okf, "R3", "first", (NF, rets[0].line if rets else fn.lineno), "`first` = reactions[idxes[0]] for every key seen more than once, in insertion order",
-              expected="[reactions[idxes[0]] for _, idxes in seen.items() if len(idxes) > 1]", found=found)
+    ctx.check(thr_ok, "R3", "first", WF, "`first` = reactions[idxes[0]] for every key seen more than once, in insertion order", expected=EXPF, found=show(c)[:140])
     # check list per mode: whatever the spelling of the dispatch, the list for mode None / "brief" / any other text
     leaves = {m: _mode_leaf(chk, m) for m in ("none", "brief", "text")}
     if chk[0] in ("phi", "ifexp") and all(v is not None for v in leaves.values()):
@@ -508,20 +631,19 @@ def _r5(ctx, pkg):
 def _r4_callers(ctx, pkg, rule="R4"):
     """De-duplication removes the LATER copies: callers hand remove_reaction the position list of find_duplicate_reaction,
     not the duplicate objects (removal by object is removal by equality, which also removes the copy to keep)."""
-    fd = pkg.method("Network", "find_duplicate_reaction")
-    rets = [n for n in ast.walk(fd) if isinstance(n, ast.Return) and isinstance(n.value, ast.Tuple)]
-    idxvars = set()
-    for n in ast.walk(fd):
-        if isinstance(n, ast.For) and isinstance(n.iter, ast.Call) and ast.unparse(n.iter.func) == "enumerate" and isinstance(n.target, ast.Tuple) and isinstance(n.target.elts[0], ast.Name):
-            idxvars.add(n.target.elts[0].id)
+    pkg.method("Network", "find_duplicate_reaction")
+    # by role: the element of the returned tuple that is a list grown by appending the loop's own position counter (read on the
+    # function with its private helpers put back, so that a scan extracted into a helper is the same scan)
+    fd = pkg.expanded("Network", "find_duplicate_reaction")
+    ffl = Flow(fd, NF, resolver=lambda name: pkg.resolve("Network", name)[1])
+    rets = [simp(f.value) for f in ffl.facts if f.kind == "return"]
     pos = set()
-    if len(rets) == 1:
-        for i, e in enumerate(rets[0].value.elts):
-            if isinstance(e, ast.Name):
-                for n in ast.walk(fd):
-                    if isinstance(n, ast.Call) and isinstance(n.func, ast.Attribute) and n.func.attr == "append" and ast.unparse(n.func.value) == e.id \
-                            and n.args and isinstance(n.args[0], ast.Name) and n.args[0].id in idxvars:
-                        pos.add(i)
+    if len(rets) == 1 and rets[0][0] == "tuple":
+        for i, e in enumerate(rets[0][1]):
+            if e[0] == "acc":
+                apps = [f for f in ffl.facts if f.kind == "append" and f.target == e[1]]
+                if apps and all(simp(f.value)[0] == "idx" for f in apps):
+                    pos.add(i)
     if len(pos) != 1:
         # by role, with the scan possibly moved into helper methods (put back by pkg.expanded): the element of the returned tuple
         # that is a list filled only by appending the position counter of an enumerate loop
@@ -683,4 +805,54 @@ MUTANTS += [
 MUTANTS += [
     {"name": "hash-key-in-helper-sorted-by-name", "file": RF, "old": _HASH,
      "new": "        return hash(self._sides())\n\n    def _sides(self):\n        return (tuple(sorted(self.reactants)), tuple(sorted(self.products)))\n", "rules": ["R1"]},
+]
+
+# ---- the first-seen table in other representations (only two projections of an entry are ever read: first position, count) ----
+_FIRST = "        first = [reactions[idxes[0]] for _, idxes in seen.items() if len(idxes) > 1]\n"
+_FACT = "def _grain_factory(model: str, **kwargs) -> Grain:\n"
+_OCC_DC = "from dataclasses import dataclass\n\n\n@dataclass\nclass _Occ:\n    first: int\n    count: int = 1\n\n\n"
+_OCC_LOOP = ("            occ = seen.get(chk)\n            if occ is None:\n                seen[chk] = _Occ(first=idx)\n                continue\n\n"
+             "            occ.count += 1\n            dupes.append(reactions[idx])\n            dupidx.append(idx)\n")
+_OCC_FIRST = "        first = [reactions[occ.first] for occ in seen.values() if occ.count > 1]\n"
+_SCAN = ("        for idx, chk in enumerate(\n            tqdm(check_list, desc=\"Checking Repeated Reactions...\")\n        ):\n" + _LOOP)
+BENIGN += [
+    {"name": "table-of-occurrence-records", "edits": [
+        {"file": NF, "old": _FACT, "new": _OCC_DC + _FACT}, {"file": NF, "old": _LOOP, "new": _OCC_LOOP}, {"file": NF, "old": _FIRST, "new": _OCC_FIRST}]},
+    {"name": "table-of-pairs", "edits": [
+        {"file": NF, "old": _LOOP, "new": "            if chk not in seen:\n                seen[chk] = [idx, 1]\n            else:\n                dupes.append(reactions[idx])\n"
+                                          "                dupidx.append(idx)\n                seen[chk][1] += 1\n"},
+        {"file": NF, "old": _FIRST, "new": "        first = [reactions[at] for at, n in seen.values() if n >= 2]\n"}]},
+    {"name": "table-of-named-tuples-replaced", "edits": [
+        {"file": NF, "old": _FACT, "new": "from collections import namedtuple\n\n_Seen = namedtuple(\"_Seen\", \"first count\")\n\n\n" + _FACT},
+        {"file": NF, "old": _LOOP, "new": "            rec = seen.get(chk)\n            if rec is None:\n                seen[chk] = _Seen(idx, 1)\n            else:\n                dupes.append(reactions[idx])\n"
+                                          "                dupidx.append(idx)\n                seen[chk] = rec._replace(count=rec.count + 1)\n"},
+        {"file": NF, "old": _FIRST, "new": "        first = [reactions[rec.first] for rec in seen.values() if rec.count > 1]\n"}]},
+    {"name": "scan-in-static-helper", "edits": [
+        {"file": NF, "old": "        seen = {}\n        dupes = []\n        dupidx = []\n", "new": ""},
+        {"file": NF, "old": _SCAN, "new": "        seen, dupidx = self._scan(check_list)\n        dupes = [reactions[i] for i in dupidx]\n"},
+        {"file": NF, "old": "    def find_duplicate_reaction(self, mode: str = None)",
+         "new": "    @staticmethod\n    def _scan(check_list):\n        seen = {}\n        again = []\n" + _SCAN.replace("                    dupes.append(reactions[idx])\n", "").replace("dupidx.append", "again.append")
+                + "        return seen, again\n\n    def find_duplicate_reaction(self, mode: str = None)"}]},
+    {"name": "rpeq-hash-over-class-constant-sides", "edits": [
+        {"file": RF, "old": "    format = \"naunet\"\n", "new": "    format = \"naunet\"\n    _sides = (\"reactants\", \"products\")\n"},
+        {"file": RF, "old": _RPEQ, "new": "        return all(Counter(getattr(self, side)) == Counter(getattr(o, side)) for side in self._sides)"},
+        {"file": RF, "old": _HASH, "new": "        return hash(tuple(frozenset(Counter(getattr(self, side)).items()) for side in Reaction._sides))\n"}]},
+]
+MUTANTS += [
+    {"name": "occurrence-records-count-from-zero", "edits": [
+        {"file": NF, "old": _FACT, "new": _OCC_DC.replace("count: int = 1", "count: int = 0") + _FACT}, {"file": NF, "old": _LOOP, "new": _OCC_LOOP}, {"file": NF, "old": _FIRST, "new": _OCC_FIRST}],
+     "rules": ["R3"]},
+    {"name": "occurrence-records-first-overwritten", "edits": [
+        {"file": NF, "old": _FACT, "new": _OCC_DC + _FACT}, {"file": NF, "old": _LOOP, "new": _OCC_LOOP.replace("            occ.count += 1\n", "            occ.count += 1\n            occ.first = idx\n")},
+        {"file": NF, "old": _FIRST, "new": _OCC_FIRST}], "rules": ["R3"]},
+    {"name": "occurrence-records-first-needs-three", "edits": [
+        {"file": NF, "old": _FACT, "new": _OCC_DC + _FACT}, {"file": NF, "old": _LOOP, "new": _OCC_LOOP}, {"file": NF, "old": _FIRST, "new": _OCC_FIRST.replace("occ.count > 1", "occ.count > 2")}],
+     "rules": ["R3"]},
+    {"name": "occurrence-records-counted-conditionally", "edits": [
+        {"file": NF, "old": _FACT, "new": _OCC_DC + _FACT},
+        {"file": NF, "old": _LOOP, "new": _OCC_LOOP.replace("            occ.count += 1\n", "            if occ.count < 2:\n                occ.count += 1\n")},
+        {"file": NF, "old": _FIRST, "new": _OCC_FIRST.replace("occ.count > 1", "occ.count > 2")}], "rules": ["R3"]},
+    {"name": "sides-constant-one-side-only", "edits": [
+        {"file": RF, "old": "    format = \"naunet\"\n", "new": "    format = \"naunet\"\n    _sides = (\"reactants\",)\n"},
+        {"file": RF, "old": _RPEQ, "new": "        return all(Counter(getattr(self, side)) == Counter(getattr(o, side)) for side in self._sides)"}], "rules": ["R1"]},
 ]
